@@ -1,12 +1,12 @@
 #!/bin/bash
-# tools/seed_all_par.sh [jobs] -- re-evaluates both waves of seeded changes, several properties at a time
+# tools/seed_all_par.sh [jobs] -- re-evaluates all waves of seeded changes (ONLY_W7=1 ... ONLY_W3=1: newest waves only), several properties at a time
 # (each property has its own scratch worktree, so different properties do not interfere)
 cd /verif
 J=${1:-4}
 one() {
   P=$1
   for M in m1 m2; do
-    [ -n "$ONLY_W3$ONLY_W4$ONLY_W5$ONLY_W6" ] && continue
+    [ -n "$ONLY_W3$ONLY_W4$ONLY_W5$ONLY_W6$ONLY_W7" ] && continue
     [ -f /tmp/wt/$P/out/$M/patch.diff ] || continue
     extra=$(python3 -c "
 import json,sys
@@ -15,6 +15,11 @@ try:
 except Exception: pass")
     tools/seed_eval.sh $P $M $P $extra 2>&1 | cut -c1-330
   done
+  for M in m1 m2 m3; do
+    [ -f /tmp/wt7/$P/out/$M/patch.diff ] || continue
+    WT_BASE=/tmp/wt7 MUT_PREFIX=w7 tools/seed_eval.sh $P $M $P $(cat /tmp/wt7/$P/out/$M/extra 2>/dev/null) 2>&1 | cut -c1-330
+  done
+  [ -n "$ONLY_W7" ] && return
   for M in m1 m2 m3; do
     [ -f /tmp/wt6/$P/out/$M/patch.diff ] || continue
     WT_BASE=/tmp/wt6 MUT_PREFIX=w6 tools/seed_eval.sh $P $M $P $(cat /tmp/wt6/$P/out/$M/extra 2>/dev/null) 2>&1 | cut -c1-330
